@@ -24,12 +24,12 @@ import (
 
 type mstate struct {
 	crawled, seeds uint64
-	codes          [2]uint64 // "200", "404"
+	codes          [4]uint64 // "200", "404", "999", "101"
 	g              [3]uint64 // preprocessor, archiver, postprocessor
 	mn, ms         [3]uint64 // http response, process body, wait on feedback: count, sum
 }
 
-var codeKeys = [2]string{"200", "404"}
+var codeKeys = [4]string{"200", "404", "999", "101"} // the last two: codes outside the 2xx-5xx classes
 
 // metrics are the observed values, in this order, each formatted as a string.
 var metrics = []struct{ Name, Class string }{
@@ -57,7 +57,7 @@ func fmtCodes(m map[string]uint64) string {
 	}
 	var extra []string
 	for k := range m {
-		if k != codeKeys[0] && k != codeKeys[1] {
+		if k != codeKeys[0] && k != codeKeys[1] && k != codeKeys[2] && k != codeKeys[3] {
 			extra = append(extra, k)
 		}
 	}
